@@ -175,6 +175,23 @@ func (fc *FnCtx) trCall(st *State, call *ast.CallExpr) []Val {
 	sig := fn.Type().(*types.Signature)
 	if sig.Recv() != nil {
 		if _, isIface := sig.Recv().Type().Underlying().(*types.Interface); isIface {
+			// argument-less getters of library interfaces (fs.DirEntry.Name / IsDir ...) are
+			// assumed pure: repeated calls on the same value return the same result
+			if !fc.w.isRepoPkg(pkgPath) && sig.Params().Len() == 0 && sig.Results().Len() == 1 && recvExpr != nil {
+				rv := fc.tr(st, recvExpr)
+				if rv.S == SRec && rv.Rec != "" {
+					k := rv.Rec + ".$getter." + fn.Name()
+					v, ok := st.env[k]
+					if !ok {
+						rt := sig.Results().At(0).Type()
+						v = fc.initialVal(k, sortOf(rt), rt)
+					}
+					st.env["ghost.called."+fn.Name()] = boolVal("true")
+					st.env["ghost.ret."+fn.Name()+".0"] = v
+					fc.notes = appendUnique(fc.notes, "ASSUMED pure getter: "+full)
+					return []Val{v}
+				}
+			}
 			if c := fc.w.cs.lookup(pkgPath, name); c != nil {
 				return fc.callByContract(st, call, fn, recvExpr, c)
 			}
@@ -1103,4 +1120,13 @@ func (fc *FnCtx) inlineCall(st *State, call *ast.CallExpr, fn *types.Func, recvE
 	}
 	restore()
 	return results, true
+}
+
+func appendUnique(xs []string, x string) []string {
+	for _, y := range xs {
+		if y == x {
+			return xs
+		}
+	}
+	return append(xs, x)
 }
